@@ -1,6 +1,7 @@
 """Generic FIX Order single module."""
 import re
 from datetime import datetime
+from decimal import Decimal
 from math import isfinite, nan
 
 from asyncfix import FIXMessage, FMsg, FTag
@@ -9,6 +10,30 @@ from asyncfix.errors import FIXError
 from .common import FExecType, FOrdSide, FOrdStatus, FOrdType
 
 RE_CLORD_ROOT = re.compile(r"(.+)--(\d+)", re.DOTALL)
+
+
+def fix_number(value):
+    """Float as FIX number literal.
+
+    Python writes small / big floats with exponent (1e-05), which is not a FIX
+    float, and FIX has no literals for nan / inf.
+
+    Args:
+        value: price / qty (any other type is returned as is)
+
+    Returns:
+        value or its positional notation string
+
+    Raises:
+        FIXError: value is not a finite number
+    """
+    if isinstance(value, float):
+        if not isfinite(value):
+            raise FIXError(f"FIX number must be finite, got {value}")
+        s = repr(value)
+        if "e" in s or "E" in s:
+            return format(Decimal(s), "f")
+    return value
 
 
 class FIXNewOrderSingle:
@@ -234,8 +259,8 @@ class FIXNewOrderSingle:
             price: new order price (unformatted / unrounded)
             qty: new order qty (unformatted / unrounded)
         """
-        ord_msg[FTag.Price] = price
-        ord_msg[FTag.OrderQty] = qty
+        ord_msg[FTag.Price] = fix_number(price)
+        ord_msg[FTag.OrderQty] = fix_number(qty)
 
     @staticmethod
     def change_status(
